@@ -286,9 +286,9 @@ let run_case op kv : string * string =
        List.iter (fun t ->
          if !panic = None then
          match t.[0] with
-         | 'F' | 'A' -> let (r, tr) = finder_find ar f a hs.(arg t) in trace := !trace @ tr;
+         | 'F' | 'A' | 'P' -> let (r, tr) = finder_find ar f a hs.(arg t) in trace := !trace @ tr;
            (match r with Ok o -> outs := fmt_opt_nat o :: !outs | Panic p -> panic := Some p)
-         | 'R' -> let (r, tr) = rfinder_rfind ar rf a hs.(arg t) in trace := !trace @ tr;
+         | 'R' | 'Q' -> let (r, tr) = rfinder_rfind ar rf a hs.(arg t) in trace := !trace @ tr;
            (match r with Ok o -> outs := fmt_opt_nat o :: !outs | Panic p -> panic := Some p)
          | 'C' | 'O' | 'K' | 'W' | 'L' | 'V' -> ()
          | 'D' -> outs := "true" :: !outs
